@@ -22,6 +22,8 @@ RULE = ('node cases: every B/IP node kind x every BVLL function (0..11) x unicas
         'network cases: seeded layouts of 1..5 subnets behind an IPRouter, 0..1 BBMD and 0..3 ordinary nodes per subnet, 0..4 foreign devices '
         '(TTL 1..300), full (/32 two-hop, /24 one-hop, mixed) and partial BDTs, scripts of broadcasts from every node interleaved with '
         'registration, renewal, expiry (link cut), unregistration, table deletion and Read-FDT probes.  '
+        'deliv cases: seeded configurations of 1..8 BBMD subnets, 0..5 ordinary nodes each, 0..6 registered foreign devices, uniform or per-peer mixed entry styles, '
+        'full or partial tables: the deliveries of a broadcast from up to 12 origins, implementation vs BipDeliv.broadcast (the semantics of the all-size theorem).  '
         'non-trivial = the event produces at least one outbound frame, delivery or state change; distinct by (layer, input).')
 TRUSTED = ['models coq/theories/Bip.v (after bvllservice.py:342-1072) and IpNet.v (after vlan.py:28-282) written by hand; tie = correspondence',
            'the harness multiplexer shim (after bvllservice.UDPMultiplexer / tests/test_bvll/helpers.py FauxMultiplexer) replaces UDP sockets',
